@@ -224,7 +224,7 @@ fn main() {
     let mut cases = 0u64;
     for &(dw, dh) in shapes.iter() {
         for &body in BODIES.iter() {
-            for (pi, &pt) in PTS.iter().enumerate() {
+            for (pi, &pt) in PTS_EXT.iter().enumerate() {
                 let c = Case { body, pt, be: if (dw + dh) as usize % 2 == pi % 2 { simd } else { 0 }, dw, dh };
                 if !applicable(&c) {
                     continue;
